@@ -220,7 +220,11 @@ theorem merges_two {α : Type} (a b : α) : merges [[a], [b]] = [[a, b], [b, a]]
 
 def m0w : Mem := memOfWins [[1000, 1001], [2000, 2001], [3000, 3001]]
 
-def cur : Variant := {}
+/-- the mechanism as it was BEFORE the three fix commits in /repo (449d71abd2, 89a6e6f865, a2a9f2f5cf): the
+`…_counterexample` theorems below are about that variant and are kept as regressions; the `…_blocked_when_fixed`
+theorems show the same schedules are not executable on the repaired mechanism (all three switches on), which is
+what /repo contains now. -/
+def preFix : Variant := {}
 
 /-- witness 1: two exclusive-lock epochs on rank 2's window.
 rank 0: lock 2; Put [0]:=7; Put [1]:=5; unlock 2        rank 1: lock 2; Get [0]; Get [1]; unlock 2 -/
@@ -237,7 +241,7 @@ def w1Sched : List Ev :=
    .deliver 0, .deliver 0, .call 1, .call 1]
 
 theorem mech_excl_unlock_counterexample :
-    ∃ s, runMech (MState.init m0w (w1Progs cur)) w1Sched = some s ∧ s.finished 3 = true ∧
+    ∃ s, runMech (MState.init m0w (w1Progs preFix)) w1Sched = some s ∧ s.finished 3 = true ∧
       allowed 3 2 m0w [[w1Epoch0], [w1Epoch1]] (obsOf 3 2 [3, 4] s) = false := by
   apply badEnd_spec
   rw [merges_two]
@@ -261,7 +265,7 @@ def w2Sched : List Ev :=
   (List.replicate 6 (.call 0)) ++ (List.replicate 6 (.call 1))
 
 theorem mech_cas_counterexample :
-    ∃ s, runMech (MState.init m0w (w2Progs cur)) w2Sched = some s ∧ s.finished 3 = true ∧
+    ∃ s, runMech (MState.init m0w (w2Progs preFix)) w2Sched = some s ∧ s.finished 3 = true ∧
       allowed 3 2 m0w [[[.cas 1 2 0 3000 11]], [[.cas 2 2 0 3000 22]]] (obsOf 3 2 [1, 2] s) = false := by
   apply badEnd_spec
   rw [merges_two]
@@ -285,7 +289,7 @@ def w3Sched : List Ev :=
   (List.replicate 6 (.call 0)) ++ (List.replicate 6 (.call 1))
 
 theorem mech_getacc_counterexample :
-    ∃ s, runMech (MState.init m0w (w3Progs cur)) w3Sched = some s ∧ s.finished 3 = true ∧
+    ∃ s, runMech (MState.init m0w (w3Progs preFix)) w3Sched = some s ∧ s.finished 3 = true ∧
       allowed 3 2 m0w [[[.gacc 1 2 0 .replace [11]]], [[.acc 2 0 .replace [22]]]] (obsOf 3 2 [1] s) = false := by
   apply badEnd_spec
   rw [merges_two]
